@@ -36,12 +36,12 @@ func (m *Mutex) TryLock() bool {
 	}
 	t := s.self()
 	s.park(t, "Mutex.TryLock")
-	s.mu.Lock()
+	s.lock()
 	ok := m.owner == nil
 	if ok {
 		m.owner = t
 	}
-	s.mu.Unlock()
+	s.unlock()
 	if ok {
 		m.real.Lock()
 	}
@@ -57,9 +57,9 @@ func (m *Mutex) Unlock() {
 	}
 	m.real.Unlock()
 	raceDisable()
-	s.mu.Lock()
+	s.lock()
 	m.owner = nil
-	s.mu.Unlock()
+	s.unlock()
 	raceEnable()
 }
 
@@ -81,9 +81,9 @@ func (m *RWMutex) Lock() {
 	}
 	t := s.self()
 	raceDisable()
-	s.mu.Lock()
+	s.lock()
 	m.wwait++
-	s.mu.Unlock()
+	s.unlock()
 	raceEnable()
 	t.waitR, t.waitW = m, true
 	s.park(t, "RWMutex.Lock")
@@ -99,9 +99,9 @@ func (m *RWMutex) Unlock() {
 	}
 	m.real.Unlock()
 	raceDisable()
-	s.mu.Lock()
+	s.lock()
 	m.writer = nil
-	s.mu.Unlock()
+	s.unlock()
 	raceEnable()
 }
 
@@ -127,9 +127,9 @@ func (m *RWMutex) RUnlock() {
 	}
 	m.real.RUnlock()
 	raceDisable()
-	s.mu.Lock()
+	s.lock()
 	m.readers--
-	s.mu.Unlock()
+	s.unlock()
 	raceEnable()
 }
 
